@@ -630,7 +630,7 @@ pub fn gen(rng: &mut Rng, idx: usize) -> Value {
     for b in 1..napps {
         let a = rng.below(b);
         if !mounted[a] { continue }
-        let n = rng.range(1, 2);
+        let n = if rng.chance(1, 8) { 0 } else { rng.range(1, 2) };     // 0: mounted at the root, `"/".By(child)`
         let mut pre = vec![]; let mut np = 0;
         for _ in 0..n { let sg = seg(rng, pabove[a] + np < 2); if s(&sg["k"]) == "P" { np += 1 } pre.push(sg) }
         if items[a].iter().any(|it| under(arr(&it["segs"]), &pre) || (s(&it["t"]) == "mount" && under(&pre, arr(&it["segs"])))) { continue }
@@ -642,6 +642,8 @@ pub fn gen(rng: &mut Rng, idx: usize) -> Value {
     let mut nexth = 1i64;
     for a in 0..napps {
         if !mounted[a] { items[a].push(json!({"t": "route", "segs": [], "methods": ["GET"], "local": [], "h": 900 + a, "app": 0, "sig": {"pv": "p0", "ex": "none", "rt": "text"}})); continue }
+        // an application with a child mounted at its root has no room for routes of its own (mount prefixes are exclusive)
+        if items[a].iter().any(|it| s(&it["t"]) == "mount" && arr(&it["segs"]).is_empty()) { continue }
         let nr = rng.range(1, 4);
         for k in 0..nr {
             let n = rng.below(4);
